@@ -1,10 +1,25 @@
 #!/bin/bash
 # usage: ./check.sh <property|replay> <quick|thorough|file>
 # Rebuilds the checker against /repo's current working tree, then runs it.
+# Dev-time only: VERIF_REPO=<dir> builds and runs against a scratch worktree instead of /repo
+# (separate binary, module file, work directory and evidence/replay directories, so several can run side by side).
 cd "$(dirname "$0")" || exit 2
-export VERIF_ROOT="$PWD"
 export GOFLAGS=-mod=mod GOPROXY=off GOSUMDB=off GOTOOLCHAIN=local
 export GOCACHE="${GOCACHE:-$PWD/.work/gocache}"
 mkdir -p .work evidence replays
-( cd mc && go build -o ../.work/verifmc . ) || { echo "BUILD-FAILED: checker does not build against /repo"; exit 2; }
-exec ./.work/verifmc "$@"
+BIN="$PWD/.work/verifmc"
+export VERIF_ROOT="$PWD"
+if [ -n "$VERIF_REPO" ] && [ "$VERIF_REPO" != "/repo" ]; then
+  tag=$(echo "$VERIF_REPO" | md5sum | cut -c1-10)
+  alt="$PWD/.work/alt-$tag"
+  mkdir -p "$alt/evidence" "$alt/replays" "$alt/.work"
+  sed "s|=> /repo|=> $VERIF_REPO|" mc/go.mod > "$alt/go.mod"; : > "$alt/go.sum"
+  [ -f mc/go.sum ] && cp mc/go.sum "$alt/go.sum"
+  export VERIF_MODFILE="$alt/go.mod" GOFLAGS="-mod=mod -modfile=$alt/go.mod"
+  BIN="$alt/verifmc"
+  # machinery files are shared; outputs go to the scratch root
+  for f in known_findings.json known mc; do ln -sfn "$PWD/$f" "$alt/$f"; done
+  export VERIF_ROOT="$alt"
+fi
+( cd mc && go build -o "$BIN" . ) || { echo "BUILD-FAILED: checker does not build against the repository"; exit 2; }
+exec "$BIN" "$@"
